@@ -249,7 +249,7 @@ func (tc *typeCtx) structDecls() string {
 
 const preamble = `(declare-datatypes ((Slice 0)) (((mk-slice (s-ref Int) (s-off Int) (s-len Int) (s-cap Int)))))
 (declare-datatypes ((Str 0)) (((mk-str (str-arr (Array Int (_ BitVec 8))) (str-len Int)))))
-(declare-datatypes ((Iface 0)) (((mk-iface (i-tag Int) (i-val Int)))))
+(declare-datatypes ((Iface 0)) (((mk-iface (i-tag Int) (i-val Int) (i-bv (_ BitVec 64))))))
 `
 
 func (tc *typeCtx) zero(s *Sort) Term {
@@ -267,7 +267,7 @@ func (tc *typeCtx) zero(s *Sort) Term {
 	case KStr:
 		return Term{"(mk-str ((as const (Array Int (_ BitVec 8))) #x00) 0)", s}
 	case KIface:
-		return Term{"(mk-iface 0 0)", s}
+		return Term{"(mk-iface 0 0 (_ bv0 64))", s}
 	case KArray:
 		el := tc.sortOf(s.Go.Underlying().(*types.Array).Elem())
 		return Term{fmt.Sprintf("((as const %s) %s)", tc.smt(s), tc.zero(el).S), s}
